@@ -418,7 +418,7 @@ impl<'a> Expr {
                     return Ok(Value::Number(
                         matrix.rows[0]
                             .iter()
-                            .map(|x| x * x)
+                            .map(|x| Complex64::from(x.norm_sqr()))
                             .sum::<Complex64>()
                             .sqrt(),
                     ))
@@ -428,7 +428,7 @@ impl<'a> Expr {
                         matrix
                             .rows
                             .iter()
-                            .map(|x| x[0] * x[0])
+                            .map(|x| Complex64::from(x[0].norm_sqr()))
                             .sum::<Complex64>()
                             .sqrt(),
                     ))
